@@ -115,6 +115,8 @@ theorem pending_kept (s : State) (o : Op) (id : TxId) (hin : id ∈ ids s.pendin
     · exact hin
   | trigger => exact hin
   | stop => exact hin
+  | closeSub => exact hin
+  | subSpin => exact hin
 
 theorem pending_kept_run (ops : List Op) (s : State) (id : TxId) (hin : id ∈ ids s.pending)
     (hc : ∀ o ∈ ops, confirmsId id o = false) : id ∈ ids (run s ops).pending := by
@@ -151,6 +153,8 @@ theorem absent_kept (s : State) (o : Op) (id : TxId) (hout : id ∉ ids s.pendin
     · exact hout
   | trigger => exact hout
   | stop => exact hout
+  | closeSub => exact hout
+  | subSpin => exact hout
 
 theorem absent_kept_run (ops : List Op) (s : State) (id : TxId) (hout : id ∉ ids s.pending)
     (ha : ∀ o ∈ ops, acceptsId id o = false) : id ∉ ids (run s ops).pending := by
@@ -196,6 +200,8 @@ theorem noId_step (s : State) (o : Op) (id : TxId) (h : NoId id s) (ha : accepts
   | bcast tx r => exact h.2
   | confirm i => exact h.2
   | stop => exact h.2
+  | closeSub => exact h.2
+  | subSpin => exact h.2
 
 theorem noId_run (ops : List Op) (s : State) (id : TxId) (h : NoId id s)
     (ha : ∀ o ∈ ops, acceptsId id o = false) : NoId id (run s ops) := by
